@@ -145,26 +145,16 @@ Section Checkers.
            && Nat.eqb (hd 0%nat f2) d && Nat.eqb (last f2 0%nat) a
        | _, _ => false end.
 
-  (* 1-D nodes: first 0, last 1, strictly increasing, and every interior node a root (within tn/td) of the
-     integer polynomial sum_k c_k x^k (the harness passes the derivative of the shifted Legendre polynomial) *)
+  (* 1-D nodes: first 0, last 1, strictly increasing, symmetric under s -> 1 - s within tn/td (an edge shared by two
+     elements is traversed in opposite directions, so the node set must be its own mirror image) *)
   Fixpoint increasing (l : list sn) : bool :=
     match l with x :: ((y :: _) as r) => s_ltb b x y && increasing r | _ => true end.
-  Definition s_poly (cs : list Z) (x : sn) : sn :=
-    s_sum b (map (fun kc => s_scale (snd kc) (s_pow x (fst kc))) (combine (seq 0 (length cs)) cs)).
-  Definition interior {A} (l : list A) : list A := removelast (tl l).
-  Definition nodes1d_ok (p : nat) (xs : list sn) (cs : list Z) (tn td : Z) : bool :=
+  Definition nodes1d_ok (p : nat) (xs : list sn) (tn td : Z) : bool :=
     Nat.eqb (length xs) (S p)
     && s_close b (hd (1, 0) xs) (0, 0) 0 1 && s_close b (last xs (0, 0)) (1, 0) 0 1
     && increasing xs
-    && forallb (fun x => s_close b (s_poly cs x) (0, 0) tn td) (interior xs).
+    && forallb (fun xy => s_close b (s_add b (fst xy) (snd xy)) (1, 0) tn td) (combine xs (rev xs)).
 End Checkers.
-
-(* derivative of the shifted Legendre polynomial P_n(2 s - 1) = sum_k (-1)^(n+k) C(n,k) C(n+k,k) s^k *)
-Definition zbinom (n k : nat) : Z := zfact n / (zfact k * zfact (n - k)).
-Definition sh_legendre (n : nat) : list Z :=
-  map (fun k => (if Nat.even (n + k) then 1 else -1) * zbinom n k * zbinom (n + k) k) (seq 0 (S n)).
-Definition poly_deriv (cs : list Z) : list Z :=
-  map (fun kc => Z.of_nat (fst kc) * snd kc) (tl (combine (seq 0 (length cs)) cs)).
 
 (* ------------------------------------------------------------------ triangle-rule branch selection *)
 (* generated table format (gen/Tab_TriQuad.v): list of ((is_le, bound), (points, weights)) in source order;
